@@ -651,9 +651,12 @@ def m2_update_args(schema: Schema, rep: Report):
 
 
 def m3_to_etree(schema: Schema, rep: Report):
-    rep.rule("M3", "to_etree names the root after the instance's class, iterates the same spec, creates data elements under <attr>.upper() with converter.unconvert(value) as text, appends sub-aggregates via their own to_etree(), list members via _listAppend")
+    rep.rule("M3", "to_etree names the root after the instance's class, iterates the same spec, creates data elements under <attr>.upper() with converter.unconvert(value) as text, appends sub-aggregates via their own to_etree(), list members via _listAppend, and skips only values that are None")
+    from .flat import flat
+
     p = schema.p
-    fn = _fn(p, "Aggregate.to_etree").node
+    fn0 = _fn(p, "Aggregate.to_etree").node
+    fn = flat(p, BASE, fn0, schema.aggregate, keep=("_listAppend",))
     rel = p.module(BASE).relpath
     ex = Expander(fn)
     nodes = own_nodes(fn)
@@ -663,54 +666,69 @@ def m3_to_etree(schema: Schema, rep: Report):
     for r in roots:
         ok = ex.t(r.args[0]) == "self.__class__.__name__"
         rep.check("M3", "to_etree:root-tag", ok, f"root named {ex.t(r.args[0])}, not self.__class__.__name__" if not ok else "", f"{rel}:{r.lineno}")
-    loops = [st for st in own_statements(fn) if isinstance(st, ast.For) and ex.t(st.iter) in ("self.spec.items()", "self.__class__.spec.items()")]
+    loops = [st for st in own_statements(fn) if isinstance(st, ast.For) and ex.t(st.iter) in ("self.spec.items()", "self.__class__.spec.items()", "self.spec", "self.__class__.spec")]
     if not loops:
-        raise AnalysisError("M3: to_etree no longer iterates self.spec.items()")
+        raise AnalysisError("M3: to_etree no longer iterates self.spec")
     loop = loops[0]
-    if not (isinstance(loop.target, ast.Tuple) and isinstance(loop.target.elts[0], ast.Name)):
-        raise AnalysisError("M3: loop target not (attr, type)")
-    attr = loop.target.elts[0].id
+    if isinstance(loop.target, ast.Tuple) and isinstance(loop.target.elts[0], ast.Name):
+        attr = loop.target.elts[0].id
+        typevar = loop.target.elts[1].id if isinstance(loop.target.elts[1], ast.Name) else None
+    elif isinstance(loop.target, ast.Name):
+        attr, typevar = loop.target.id, None
+    else:
+        raise AnalysisError("M3: loop target not understood")
     subs = [n for n in nodes if isinstance(n, ast.Call) and dotted(n.func) in ("ET.SubElement", "SubElement") and len(n.args) >= 2]
     if not subs:
         raise AnalysisError("M3: to_etree creates no data element")
-    for s in subs:
-        ok = ex.t(s.args[1]) == f"{attr}.upper()"
-        rep.check("M3", "to_etree:data-element-tag", ok, f"data element named {ex.t(s.args[1])}, not {attr}.upper()" if not ok else "", f"{rel}:{s.lineno}")
-        # text assigned = converter.unconvert(getattr(self, attr))
-        st = parent(s)
-        while st is not None and not isinstance(st, ast.stmt):
-            st = parent(st)
-        okt = False
-        got = None
-        if isinstance(st, ast.Assign) and isinstance(st.targets[0], ast.Attribute) and st.targets[0].attr == "text":
-            got = ex.t(st.value)
-            okt = got in (
-                f"self.__class__._superdict[{attr}].unconvert(getattr(self, {attr}))",
-                f"self.spec[{attr}].unconvert(getattr(self, {attr}))",
-                f"self.__class__.spec[{attr}].unconvert(getattr(self, {attr}))",
-                f"{loop.target.elts[1].id}.unconvert(getattr(self, {attr}))" if isinstance(loop.target.elts[1], ast.Name) else "",
-            )
-        rep.check("M3", "to_etree:data-element-text", okt, f"text is {got}, expected <converter of {attr}>.unconvert(getattr(self, {attr}))" if not okt else "", f"{rel}:{s.lineno}")
-    # the only values skipped are None (a falsy test would drop False, 0 and Decimal(0))
-    skips = [st for st in ast.walk(loop) if isinstance(st, ast.If) and any(isinstance(b, ast.Continue) for b in st.body)]
-    for sk in skips:
-        t = ex.t(sk.test)
-        ok = t in (f"getattr(self, {attr}) is None",)
-        rep.check("M3", "to_etree:skips-only-None", ok, f"children are skipped under `{t}`: values such as False, 0 or Decimal('0') would not be written" if not ok else "", f"{rel}:{sk.lineno}")
+    for s_ in subs:
+        ok = ex.t(s_.args[1]) == f"{attr}.upper()"
+        rep.check("M3", "to_etree:data-element-tag", ok, f"data element named {ex.t(s_.args[1])}, not {attr}.upper()" if not ok else "", f"{rel}:{s_.lineno}")
+    # the text of a data element: any `.text = X` store whose object is (an alias of) a SubElement(...) call
+    stores = [st for st in own_statements(fn) if isinstance(st, ast.Assign) and isinstance(st.targets[0], ast.Attribute) and st.targets[0].attr == "text" and "SubElement(" in ex.t(st.targets[0].value)]
+    accepted = {
+        f"self.__class__._superdict[{attr}].unconvert(getattr(self, {attr}))", f"self.spec[{attr}].unconvert(getattr(self, {attr}))",
+        f"self.__class__.spec[{attr}].unconvert(getattr(self, {attr}))",
+    }
+    if typevar:
+        accepted.add(f"{typevar}.unconvert(getattr(self, {attr}))")
+    if not stores:
+        # SubElement(..., text=...)? not an ElementTree feature: nothing stores the text
+        rep.check("M3", "to_etree:data-element-text", False, "data elements are created but their text is never set", f"{rel}:{subs[0].lineno}")
+    for st in stores:
+        got = ex.t(st.value)
+        okt = got in accepted
+        rep.check("M3", "to_etree:data-element-text", okt, f"text is {got}, expected <converter of {attr}>.unconvert(getattr(self, {attr}))" if not okt else "", f"{rel}:{st.lineno}")
+    # conditions on the value under which nothing is written: only `is None` (a truthiness test drops False / 0 / Decimal(0))
+    from .paths import cond_of
+
+    valtxt = f"getattr(self, {attr})"
+    for st in ast.walk(loop):
+        if isinstance(st, (ast.If, ast.IfExp)):
+            c = cond_of(ex.x(st.test), None)
+            for a in sorted(c.atoms()):
+                if valtxt in a:
+                    ok = a in (f"{valtxt} is None", f"bool(isinstance({valtxt}, Aggregate))")
+                    rep.check("M3", f"to_etree:value-test({a[:50]})", ok, f"whether a child is written depends on `{a}`: values such as False, 0 or Decimal('0') would be skipped" if not ok else "", f"{rel}:{st.lineno}")
     apps = [n for n in nodes if isinstance(n, ast.Call) and isinstance(n.func, ast.Attribute) and n.func.attr == "append"]
     ok = any(ex.t(a.args[0]) == f"getattr(self, {attr}).to_etree()" for a in apps if a.args)
     rep.check("M3", "to_etree:subaggregate-recursion", ok, "no root.append(<child>.to_etree()) for sub-aggregates" if not ok else "", f"{rel}:{fn.lineno}")
     la = [n for n in nodes if isinstance(n, ast.Call) and ex.t(n.func) == "self._listAppend"]
-    ok = bool(la) and all(isinstance(parent(parent(c)), ast.For) and ex.t(parent(parent(c)).iter) == "self" for c in la)
+    def in_loop_over_self(c):
+        par = parent(c)
+        while par is not None and par is not fn:
+            if isinstance(par, ast.For) and ex.t(par.iter) == "self":
+                return True
+            par = parent(par)
+        return False
+    ok = bool(la) and all(in_loop_over_self(c) for c in la)
     rep.check("M3", "to_etree:list-members-in-order", ok, "list members are not emitted by iterating self in order" if not ok else "", f"{rel}:{fn.lineno}")
-    # _listAppend of the base: root.append(member.to_etree())
-    lfn = _fn(p, "Aggregate._listAppend").node
+    lfn = flat(p, BASE, _fn(p, "Aggregate._listAppend").node, schema.aggregate)
     lp = params_of(lfn)
-    ok = any(isinstance(n, ast.Call) and text(n) == f"{lp[1]}.append({lp[2]}.to_etree())" for n in own_nodes(lfn)) if len(lp) >= 3 else False
+    lex = Expander(lfn)
+    ok = any(isinstance(n, ast.Call) and lex.t(n) == f"{lp[1]}.append({lp[2]}.to_etree())" for n in own_nodes(lfn)) if len(lp) >= 3 else False
     rep.check("M3", "_listAppend:appends-member.to_etree()", ok, "" if ok else "base _listAppend does not append member.to_etree()", f"{rel}:{lfn.lineno}")
-    # returns through ungroom of the same root
     rets = [n for n in nodes if isinstance(n, ast.Return)]
-    rootnames = {t.id for st in own_statements(fn) if isinstance(st, ast.Assign) and st.value in roots for t in st.targets if isinstance(t, ast.Name)}
+    rootnames = {t.id for st in own_statements(fn) if isinstance(st, ast.Assign) and isinstance(st.value, ast.Call) and dotted(st.value.func) in ("ET.Element", "Element") for t in st.targets if isinstance(t, ast.Name)}
     for r in rets:
         v = r.value
         ok = v is not None and (
@@ -721,35 +739,62 @@ def m3_to_etree(schema: Schema, rep: Report):
 
 
 def m4_apply_args(schema: Schema, rep: Report):
-    rep.rule("M4", "_apply_args admits an aggregate member only if its lower-cased class name is in self.listaggregates (raising otherwise) before appending it")
+    rep.rule("M4", "_apply_args admits an aggregate member only if its lower-cased class name is in self.listaggregates: on every path that reaches self.append(member), `isinstance(member, Aggregate)` implies that membership (path-condition table over the flattened function, so the test may live in a helper)")
+    from . import paths as PT
+    from .flat import flat
+
     p = schema.p
-    fn = _fn(p, "Aggregate._apply_args").node
+    fn0 = _fn(p, "Aggregate._apply_args").node
+    fn = flat(p, BASE, fn0, schema.aggregate)
     rel = p.module(BASE).relpath
     ex = Expander(fn)
-    cfg = CFG(fn)
+    pths = PT.enumerate_paths(fn, expander=ex)
+    cfg = pths.cfg
     appends = cfg.nodes_calling(lambda c: isinstance(c.func, ast.Attribute) and c.func.attr == "append" and ex.t(c.func.value) == "self")
     if not appends:
         raise AnalysisError("M4: _apply_args appends nothing to self")
-    tests = []
-    for n in cfg.nodes:
-        if n.kind == "test":
-            t = ex.x(n.stmt.test)
-            for c in ast.walk(t):
-                if isinstance(c, ast.Compare) and len(c.ops) == 1 and isinstance(c.ops[0], (ast.In, ast.NotIn)) and text(c.comparators[0]) == "self.listaggregates":
-                    tests.append((n, c))
-    if not tests:
-        rep.check("M4", "_apply_args:admission-test", False, "no membership test against self.listaggregates", f"{rel}:{fn.lineno}")
+    import re as _re
+
+    atoms = PT.atoms_of(pths)
+    agg = [a for a in atoms if _re.fullmatch(r"bool\(isinstance\((\w+), Aggregate\)\)", a)]
+    member = [a for a in atoms if _re.fullmatch(r"(\w+)\.__class__\.__name__\.lower\(\) in self\.listaggregates", a)]
+    if not member:
+        other = [a for a in atoms if "listaggregates" in a or "listelements" in a]
+        if other:
+            rep.note(f"M4 undecided: admission tested as {other}")
+            return
+        rep.check("M4", "_apply_args:admission-test", False, "no membership test against self.listaggregates: any aggregate is admitted as a list member", f"{rel}:{fn0.lineno}")
         return
-    for n, c in tests:
-        left = text(c.left)
-        loopvars = [st.target.id for st in own_statements(fn) if isinstance(st, ast.For) and isinstance(st.target, ast.Name)]
-        ok = any(left == f"{v}.__class__.__name__.lower()" for v in loopvars)
-        rep.check("M4", "_apply_args:admission-key", ok, f"admission tests {left}, expected <member>.__class__.__name__.lower()" if not ok else "", f"{rel}:{n.stmt.lineno}")
-        # failing branch raises
-        notin = isinstance(c.ops[0], ast.NotIn)
-        branch = n.stmt.body if notin else n.stmt.orelse
-        raises = any(isinstance(s, ast.Raise) for s in branch)
-        rep.check("M4", "_apply_args:admission-raises", raises, "the failing branch of the admission test does not raise" if not raises else "", f"{rel}:{n.stmt.lineno}")
+    var = _re.fullmatch(r"(\w+)\.__class__.*", member[0]).group(1)
+    bad = None
+    for app in appends:
+        for pth in pths:
+            cb = pth.conds_before(app.id)
+            if cb is None:
+                continue
+            # is there an assignment consistent with the conditions so far in which the member is an Aggregate of a foreign class?
+            known = {}
+            consistent = True
+            for c, want in cb:
+                if c.kind == "atom":
+                    v = want if c.pol else not want
+                    if c.atom in known and known[c.atom] != v:
+                        consistent = False
+                    known[c.atom] = v
+            if not consistent:
+                continue
+            is_agg = [known.get(a) for a in agg]
+            in_list = known.get(member[0])
+            if (not agg or any(x is not False for x in is_agg)) and in_list is not True:
+                # aggregate possible, membership not established on this path
+                if agg and all(x is None for x in is_agg) and in_list is None:
+                    bad = "a path reaches self.append(member) without testing the member at all"
+                elif in_list is False:
+                    bad = "a path appends a member whose class name is NOT in self.listaggregates"
+                elif any(x is True for x in is_agg) or not agg:
+                    bad = "a path appends an Aggregate member without having established that its class name is in self.listaggregates"
+    rep.check("M4", "_apply_args:admission-test", bad is None, (bad + ": members of a foreign class are admitted") if bad else "", f"{rel}:{fn0.lineno}")
+    rep.check("M4", "_apply_args:admission-key", True, f"tests {member[0]}", f"{rel}:{fn0.lineno}")
 
 
 def m5_validate_args(schema: Schema, rep: Report):
